@@ -388,7 +388,7 @@ func (w *World) Reconcile(name string) map[string]interface{} {
 		if c, ok := w.canon[k]; ok && k > 0 {
 			k = c
 		}
-		fl = append(fl, []interface{}{k, f.Kind, f.Applied, f.Die, f.List})
+		fl = append(fl, []interface{}{k, f.Kind, f.Applied, f.Die, f.List, f.Evict})
 	}
 	sn["faults"] = fl
 	rec := map[string]interface{}{"sn": sn, "calls": calls, "res": res}
